@@ -192,6 +192,22 @@ def _on_alarm(_signum, _frame):
 
 
 def guarded_run(check, case):
+    """run_case under a watchdog (see _guarded_run) and under an ordinary recursion limit:
+    Hypothesis raises the interpreter's limit while it runs a test, replay and enumerations do
+    not; the code under test always sees about the default limit (1000) above the depth at which
+    it is entered, as in an ordinary program (a check may set RECURSION_HEADROOM)."""
+    depth, frame = 0, sys._getframe()      # pylint: disable=protected-access
+    while frame is not None:
+        depth, frame = depth + 1, frame.f_back
+    old_limit = sys.getrecursionlimit()
+    sys.setrecursionlimit(depth + int(getattr(check, 'RECURSION_HEADROOM', 950)))
+    try:
+        return _guarded_run(check, case)
+    finally:
+        sys.setrecursionlimit(old_limit)
+
+
+def _guarded_run(check, case):
     """run_case under a watchdog.  A case normally takes milliseconds; one that
     exceeds ``check.CASE_TIMEOUT`` seconds (default 300) is run a second time
     with twice the limit, and only if it exceeds that too it is reported, as a
